@@ -209,8 +209,11 @@ def run_case(cs):
 
 
 def _dr_step(cs, root, fm, ren, ctx, steps, rel_fmt, classes, prior, stage):
-    r, new, before, after = hist.create(root, fm, ["-dr"])
-    steps.append(f"create -dr {fm} => {r.exit}")
+    no_dh = cs.rng.random() < 0.25  # -n: no directory hashes, the new folders get records without digests
+    if no_dh:
+        cs.count("dr_runs_with_n")
+    r, new, before, after = hist.create(root, fm, ["-dr"] + (["-n"] if no_dh else []))
+    steps.append(f"create -dr{' -n' if no_dh else ''} {fm} => {r.exit}")
     cs.evaluated()
     cs.count("dr_runs_judged")
     cs.cls("+".join(sorted(classes)), "n%d" % len(ren), rel_fmt, "prior%d" % prior, stage)
